@@ -352,6 +352,7 @@ func propC02(w *World, r *Report) {
 	}
 	checkSettingsImmutable(w, r, "P1", "RecorderConfig:PreviewSecs", "ThermalRecorder:PreviewSecs", "Config:Recorder") // preview-secs reaches the processor as configured
 	checkRingAdvancesOncePerFrame(w, r, runs, "P2", true, false)
+	checkRingCapacityExact(w, r, "P1")
 }
 
 // ---------------------------------------------------------------------------------------
@@ -1261,6 +1262,7 @@ func propC17(w *World, r *Report) {
 	checkAuxWiring(w, r, runs)
 	checkCleanupOnlyAtStartup(w, r, "V4") // no recorder unlinks the in-progress file of the continuous / test recording
 	checkSinksDistinct(w, r, runs, "V4")  // the continuous and test recordings have recorders of their own
+	checkSinkBookkeeping(w, r, runs.fault, "V3", roleContinuous, roleTest) // a failed start / stop of an auxiliary recording leaves its bookkeeping consistent
 }
 
 // V4: functions that drive the continuous/test sinks store only to fields that the motion path never reads or writes.
